@@ -114,9 +114,11 @@ func (am *Machine) storeOperation(o client.Operation) error {
 		return fmt.Errorf("failed to marshal operationsLog: %w", err)
 	}
 
+	simYield(am, "air.store.beforeLogPut")
 	if err := am.db.Put([]byte(operationsLogDBKey), roundOperationsLogBz, nil); err != nil {
 		return fmt.Errorf("failed to put updated operationsLog: %w", err)
 	}
+	simYield(am, "air.store.afterLogPut")
 
 	return nil
 }
